@@ -84,6 +84,7 @@ func init() {
 			ruleG1(r, le)
 			ruleG2(r)
 			ruleA1(r)
+			ruleC09A2(r)
 		},
 	})
 }
@@ -371,5 +372,48 @@ func ruleA1(r *Run) {
 	sort.Strings(fks)
 	for _, fk := range fks {
 		r.Check("field "+fk+" is atomic-only", true, "", "", "every access outside constructors goes through sync/atomic (violations, if any, are listed separately)")
+	}
+}
+
+// ruleC09A2: a plain store through a pointer that was loaded from a struct field writes to memory whose owner is
+// unknown to the function — typically a default shared by every copy of a configuration struct (`*opt.CloseTimeout = d`
+// writes the package-level default that every other OpenUpstream reads). Scalars behind field pointers may only be
+// replaced (`opt.CloseTimeout = &d`) or updated atomically.
+func ruleC09A2(r *Run) {
+	r.Begin("A2", "no plain store through a field pointer to a scalar: in the module's non-test code no Store writes to an address obtained by loading a pointer-typed struct field whose element type is a basic type or time.Duration (the pointee may be shared with other copies of the struct, e.g. a package-level default); such fields are re-pointed or updated with sync/atomic", 1)
+	p := r.P
+	n := 0
+	for _, fn := range p.Funcs {
+		if fn.Blocks == nil {
+			continue
+		}
+		allInstrs(fn, func(ins ssa.Instruction) {
+			st, ok := ins.(*ssa.Store)
+			if !ok {
+				return
+			}
+			ld, isLd := st.Addr.(*ssa.UnOp)
+			if !isLd || ld.Op != token.MUL {
+				return
+			}
+			fk := fieldKeyOfAddr(ld.X)
+			if fk == "" {
+				return
+			}
+			pt, isPtr := ld.Type().Underlying().(*types.Pointer)
+			if !isPtr {
+				return
+			}
+			if _, isBasic := pt.Elem().Underlying().(*types.Basic); !isBasic {
+				return
+			}
+			n++
+			name := fnName(fn)
+			r.Check(fmt.Sprintf("%s store through %s", name, fk), false, posOf(p, st), name, "plain write through the pointer held in "+fk+": the pointee may be shared (a copied configuration still points at the package-level default), so concurrent users race on it and the value leaks into every other user")
+		})
+	}
+	r.Stat("stores_through_field_pointers", n)
+	if n == 0 {
+		r.Check("stores through field pointers", true, "", "", "none in the analysed packages")
 	}
 }
